@@ -123,6 +123,7 @@ type walker struct {
 	bad     string // first out-of-range primitive found
 	key     []byte // optional canonical serialization (nil: off)
 	wantKey bool
+	loc     local // the owning worker's counters
 }
 
 func newWalker() *walker { return &walker{seen: make(map[stackitem.Item]int, 16)} }
